@@ -82,6 +82,7 @@ class Shadow:
     def __init__(self, data, binary, eof_action, reposition):
         self.data, self.binary, self.eof_action, self.reposition = data, binary, eof_action, reposition
         self.pos, self.lines, self.past = 0, 0, False
+        self.clean = True      # cursor at a term boundary (no character-level reads since the last read_term)
 
     def eos(self):
         if self.past:
@@ -205,6 +206,10 @@ def shard(ctx):
             kind, val, pos, lines, eos = decode(o)
             was_past_reset = sh.past and eof_action == 'reset'
             why = op['judge'](sh, kind, val, pos) if op.get('wants_pos') else op['judge'](sh, kind, val)     # steps the shadow
+            if op['name'] == 'read_term':
+                sh.clean = sh.clean or (why is None and kind == 'yes')
+            elif op['name'] in ('get_char', 'get_code', 'get_n_chars', 'set_stream_position'):
+                sh.clean = False
             if why == 'skip':
                 # behaviour the model does not define: resynchronise from the observation
                 sh.pos, sh.lines, sh.past = (pos or 0), (lines or 0), eos == 'past'
@@ -384,9 +389,9 @@ def op_read_term():
             return 'skip'
         if kind == 'raised':
             # character reads may have left the cursor inside a term
-            if val is not None and val[0] == 'c' and val[1] == 'syntax_error':
+            if val is not None and val[0] == 'c' and val[1] == 'syntax_error' and not sh.clean:
                 return 'skip'
-            return 'read_term_raised'
+            return 'read_term_raised_at_term_boundary' if sh.clean else 'read_term_raised'
         rest = sh.data[sh.pos:].decode()
         stripped = rest.lstrip(' \n')
         if not stripped:
